@@ -13,6 +13,10 @@
 //!                                      tabix / of the CSI aux block): Ok:<header>|consumed or Err:<kind>
 //!                                      (where the stream stands after an error inside the names block
 //!                                      is not compared: the reader stops early there)
+//!   tbir  bgzf cap script              tabix::io::Reader::new(src).read_index(): the index reader stacked on
+//!                                      the BGZF block reader, on a compressed (possibly truncated / corrupt)
+//!                                      file; obs = Ok:<header> <references> <n_no_coor> or Err:<kind> (the
+//!                                      model: NV.Io.TabixProg.run_tabix)
 //! obs = result (canonical value or Err:<kind>) | bytes the reader took from the source minus what is
 //! still buffered.  verdict: obs (and for bcfr the Debug rendering of every record) equals the one
 //! obtained from the plain slice.
@@ -118,7 +122,14 @@ fn bai_obs(r: &mut dyn BufRead) -> String {
     use noodles_csi::BinningIndex;
     use noodles_csi::binning_index::ReferenceSequence as _;
     let mut rd = bam::bai::io::Reader::new(r);
-    res_obs(guarded(AssertUnwindSafe(|| rd.read_index())), |ix| {
+    res_obs(guarded(AssertUnwindSafe(|| rd.read_index())), |ix| fmt_linear_index(&ix))
+}
+
+/// the canonical rendering of a linear binning index (BAI and tabix share the type)
+fn fmt_linear_index(ix: &bam::bai::Index) -> String {
+    use noodles_csi::BinningIndex;
+    use noodles_csi::binning_index::ReferenceSequence as _;
+    {
         let refs: Vec<String> = ix
             .reference_sequences()
             .iter()
@@ -152,7 +163,7 @@ fn bai_obs(r: &mut dyn BufRead) -> String {
             Some(n) => n.to_string(),
         };
         format!("{} {un}", fmt_list("/", &refs, |s| s.clone()))
-    })
+    }
 }
 
 fn fai_obs(r: &mut dyn BufRead) -> String {
@@ -216,29 +227,41 @@ fn cram_obs(r: &mut dyn BufRead) -> String {
     }
 }
 
-fn csih_obs(r: &mut dyn BufRead) -> String {
+fn fmt_csi_header(h: &noodles_csi::binning_index::index::Header) -> String {
     use noodles_csi::binning_index::index::header::{Format, format::CoordinateSystem};
+    let names: Vec<Vec<u8>> = h.reference_sequence_names().iter().map(|n| n.to_vec()).collect();
+    let f = match h.format() {
+        Format::Generic(CoordinateSystem::Gff) => "g",
+        Format::Generic(CoordinateSystem::Bed) => "b",
+        Format::Sam => "s",
+        Format::Vcf => "v",
+    };
+    format!(
+        "{f}:{}:{}:{}:{}:{}:{}",
+        h.reference_sequence_name_index(),
+        h.start_position_index(),
+        h.end_position_index().map(|e| e.to_string()).unwrap_or_else(|| "-".into()),
+        h.line_comment_prefix(),
+        h.line_skip_count(),
+        fmt_list(",", &names, |n| if n.is_empty() { ".".into() } else { hex(n) })
+    )
+}
+
+/// tabix::io::Reader::new(src).read_index(): the index reader stacked on the BGZF block reader
+fn tbi_obs(r: &mut dyn BufRead) -> String {
+    use noodles_csi::BinningIndex;
+    let mut rd = noodles_tabix::io::Reader::new(r);
+    res_obs(guarded(AssertUnwindSafe(|| rd.read_index())), |ix| {
+        let h = ix.header().map(fmt_csi_header).unwrap_or_else(|| "-".into());
+        format!("{h} {}", fmt_linear_index(&ix))
+    })
+}
+
+fn csih_obs(r: &mut dyn BufRead) -> String {
     let mut rr = r;
     match guarded(AssertUnwindSafe(|| noodles_csi::io::reader::index::read_header(&mut rr))) {
         Outcome::Panicked(_) => "Panic".into(),
-        Outcome::Done(Ok(h)) => {
-            let names: Vec<Vec<u8>> = h.reference_sequence_names().iter().map(|n| n.to_vec()).collect();
-            let f = match h.format() {
-                Format::Generic(CoordinateSystem::Gff) => "g",
-                Format::Generic(CoordinateSystem::Bed) => "b",
-                Format::Sam => "s",
-                Format::Vcf => "v",
-            };
-            format!(
-                "Ok:{f}:{}:{}:{}:{}:{}:{}",
-                h.reference_sequence_name_index(),
-                h.start_position_index(),
-                h.end_position_index().map(|e| e.to_string()).unwrap_or_else(|| "-".into()),
-                h.line_comment_prefix(),
-                h.line_skip_count(),
-                fmt_list(",", &names, |n| if n.is_empty() { ".".into() } else { hex(n) })
-            )
-        }
+        Outcome::Done(Ok(h)) => format!("Ok:{}", fmt_csi_header(&h)),
         Outcome::Done(Err(e)) => {
             // an I/O error keeps its kind; every other variant is invalid data
             let mut cur: Option<&(dyn std::error::Error + 'static)> = Some(&e);
@@ -271,7 +294,7 @@ fn verdict(obs: String, plain: String, tag: &str, nontrivial: bool) -> Obs {
 
 pub fn run(c: &Case) -> Option<Obs> {
     let k = c.kind.as_str();
-    if !matches!(k, "gzir" | "bair" | "fair" | "bcfr" | "cramc" | "csih") {
+    if !matches!(k, "gzir" | "bair" | "fair" | "bcfr" | "cramc" | "csih" | "tbir") {
         return None;
     }
     let data = c.b(0);
@@ -290,6 +313,12 @@ pub fn run(c: &Case) -> Option<Obs> {
         "fair" => {
             let (o, p) = both(&data, cap.max(1), script, &fai_obs);
             verdict(o, p, "fai-reader-chunking-dependent", nontrivial)
+        }
+        "tbir" => {
+            // the position of the inner source is not compared (the block reader reads whole frames)
+            let (o, p) = both(&data, cap, script, &tbi_obs);
+            let strip = |s: String| s.rsplit_once('|').map(|x| x.0.to_string()).unwrap_or(s);
+            verdict(strip(o), strip(p), "tabix-index-reader-chunking-dependent", data.len() >= 28)
         }
         "csih" => {
             let (o, p) = both_ok_pos(&data, cap, script, &csih_obs);
@@ -462,8 +491,69 @@ fn gen_csi_header(rng: &mut Rng) -> Vec<u8> {
     f
 }
 
+/// a tabix index file: payload "TBI\1" n_ref header references [n_no_coor] (the references and the
+/// trailing count are those of a small BAI file), possibly malformed, BGZF-compressed with random block
+/// breaks, then possibly truncated / with a corrupt frame header or trailer
+fn gen_tabix_bgzf(rng: &mut Rng) -> Vec<u8> {
+    let bai = c12_files::bai_file_small(rng);
+    let mut p = b"TBI\x01".to_vec();
+    p.extend_from_slice(&bai[4..8]);
+    if rng.chance(1, 3) {
+        p.extend(gen_csi_header(rng));
+    } else {
+        let fmt = *rng.pick(&[0i32, 0x10000, 1, 2]);
+        let end = if fmt == 1 || fmt == 2 { 0 } else { *rng.pick(&[2i32, 3]) };
+        for v in [fmt, 1, 2, end, 35, rng.below(3) as i32] {
+            p.extend_from_slice(&v.to_le_bytes());
+        }
+        let mut block = Vec::new();
+        for i in 0..rng.below(4) {
+            block.extend_from_slice(format!("chr{i}").as_bytes());
+            block.push(0);
+        }
+        p.extend_from_slice(&(block.len() as i32).to_le_bytes());
+        p.extend_from_slice(&block);
+    }
+    p.extend_from_slice(&bai[8..]);
+    if rng.chance(1, 4) {
+        let how = *rng.pick(&["trunc", "trunc-tail", "flip", "tail"]);
+        p = c12_files::malform(rng, &p, how);
+    }
+    let breaks = c12_files::random_breaks(rng, p.len());
+    let mut g = c12_files::bgzip(&p, &breaks, rng.chance(3, 4));
+    match rng.below(8) {
+        0 => c12_files::malform(rng, &g, "trunc"),
+        1 => c12_files::malform(rng, &g, "trunc-tail"),
+        2 => {
+            // a header / BSIZE / trailer byte of some frame (not the deflate stream)
+            let mut starts = vec![0usize];
+            let mut at = 0usize;
+            while at + 18 <= g.len() {
+                at += u16::from_le_bytes([g[at + 16], g[at + 17]]) as usize + 1;
+                if at < g.len() {
+                    starts.push(at);
+                }
+            }
+            let s0 = *rng.pick(&starts);
+            let bs = if s0 + 18 <= g.len() { u16::from_le_bytes([g[s0 + 16], g[s0 + 17]]) as usize + 1 } else { 18 };
+            let off = *rng.pick(&[0usize, 2, 3, 10, 12, 14, 16, 17, bs - 1, bs - 4, bs - 5, bs - 8]);
+            if s0 + off < g.len() {
+                g[s0 + off] ^= 1 << rng.below(8);
+            }
+            g
+        }
+        _ => g,
+    }
+}
+
 pub fn generate(rng: &mut Rng, thorough: bool, w: &mut CaseWriter) {
     let raw_caps = [0usize, 0, 0, 1, 2, 3, 5, 7, 16, 64, 4096];
+    for _ in 0..(if thorough { 1200 } else { 100 }) {
+        let f = gen_tabix_bgzf(rng);
+        let wi = rng.chance(1, 3);
+        let script = random_script(rng, f.len(), wi);
+        w.push("tbir", vec![hex(&f), rng.pick(&raw_caps).to_string(), fmt_script(&script)]);
+    }
     let buf_caps = [1usize, 2, 3, 5, 7, 16, 64, 4096];
     let n = if thorough { 1500 } else { 120 };
     let push3 = |w: &mut CaseWriter, rng: &mut Rng, kind: &str, f: Vec<u8>, caps: &[usize]| {
